@@ -114,6 +114,8 @@ type Exec struct {
 	nnVars    map[int]bool // solver constants known to be >= 0 on the current path
 	rawKeys   map[*Obj]Value // byte buffers holding a KeyCodec-encoded key (kept structural)
 	LabelFinding map[string]string // assert label -> known-finding id it is split by (ndAssertK)
+	StoreOps  int // collection accesses on the current path
+	cfgEpoch  int // which "node" is executing (ndNodeConfig): node-local configuration reads are per epoch
 	constMemo map[string]Term
 	addrHex   map[string][]Term
 	constAtoms map[string]int64
@@ -231,6 +233,7 @@ func (ex *Exec) runOnce(fn *ssa.Function) {
 	ex.beMemo = map[string]Term{}
 	ex.divMemo = map[string][2]Term{}
 	ex.nnVars = map[int]bool{}
+	ex.StoreOps, ex.cfgEpoch = 0, 0
 	ex.constMemo = map[string]Term{}
 	ex.addrHex = map[string][]Term{}
 	ex.objSeq = 0
